@@ -257,9 +257,15 @@ func genAKAHistory(r *kernel.Rand, maxOps int) map[string]interface{} {
 		case 0:
 			return make([]byte, 6)
 		case 1:
-			return []byte{0xff, 0xff, 0xff, 0xff, 0xff, 0xf0}
+			// high, but far from exhausting the 48-bit space within one history (a UE at the very
+			// last SQN can accept nothing any more: outside "once faults stop, a fresh challenge is accepted")
+			return []byte{0xff, 0xff, 0xff, 0x00, 0x00, byte(r.Intn(256))}
 		}
-		return r.Bytes(6)
+		b := r.Bytes(6)
+		if b[0] == 0xff && b[1] == 0xff && b[2] == 0xff {
+			b[2] = 0x7f
+		}
+		return b
 	}
 	he := sq()
 	ue := append([]byte{}, he...)
